@@ -10,7 +10,7 @@ package main
 //   oracle:         the REAL script is executed command by command on the strict specification-side device (dev.go):
 //                   C01 convergence / left-overs / second compare empty, C07 frame, C08 every command executable,
 //                   C10 resume from every cut.
-// Serves -prop C01, C07, C08, C10.  The generator extends the one of harness/asacfg (not edited).
+// Serves -prop C01, C07, C08, C10, C14 (C14: route coverage after every printed line).  The generator extends the one of harness/asacfg (not edited).
 
 import (
 	"fmt"
@@ -29,7 +29,7 @@ import (
 )
 
 func main() {
-	Main(map[string]PropFunc{"C01": run, "C07": run, "C08": run, "C10": run})
+	Main(map[string]PropFunc{"C01": run, "C07": run, "C08": run, "C10": run, "C14": run})
 }
 
 type cfgCase struct {
@@ -837,7 +837,9 @@ func run(ctx *Ctx) *Result {
 
 	// correspond compares the model with drc on one pair; returns the real script (nil if drc refused) and ok.
 	// verdict: "ok" (model and drc agree on a script), "disagree", "refused" (drc exits non-zero), "panic"
+	lastK2 := ""
 	correspond := func(stream string, c cfgCase, a, b *asaDev, devText, spocText string) (cmds []string, out string, verdict string) {
+		lastK2 = ""
 		out, errOut, status, pan := runDrc(devText, spocText)
 		if pan != "" {
 			res.Fail(map[string]any{"pred": "drc_panic"}, "panic: "+pan, c)
@@ -883,6 +885,12 @@ func run(ctx *Ctx) *Result {
 			}
 		}
 		res.Count(stream + ":class-K2(k2Check):" + f["k2"])
+		lastK2 = f["k2"]
+		// the script compared equal to drc's: the phase shape assumed by NA.Route.routes_covered holds on the REAL route commands
+		res.Count("route-phase-shape(asa_routes_covered_every_step):" + f["rshape"])
+		if f["rshape"] == "0" {
+			res.Disagree(stream+": route commands of the real script violate the phase shape (contradicts asa_routes_covered_every_step)", c, out, "")
+		}
 		if f["k2"] == "1" && !strings.HasPrefix(f["exec"], "ok") {
 			res.Disagree(stream+": k2Check holds but the Lean device rejects the model script (contradicts asa_F1_converges)", c, "", f["exec"])
 		}
@@ -962,6 +970,7 @@ func run(ctx *Ctx) *Result {
 		}
 		canon := c.Dev + "--\n" + c.Spoc
 		cmds, out, verdict := correspond("F1", c, c.dev, c.spoc, c.Dev, c.Spoc)
+		firstK2 := lastK2
 		if verdict == "refused" || verdict == "panic" {
 			res.Eval(canon, false)
 			return
@@ -1101,10 +1110,58 @@ func run(ctx *Ctx) *Result {
 				res.Fail(s, "unmanaged content differs after the script:\n"+got+"-- before\n"+frame0, c)
 			}
 		}
+		if prop == "C14" && len(c.spoc.Routes) > 0 {
+			// oracle for asa_routes_covered_every_step on the REAL script: after every printed line (a joined line is one
+			// command) every destination that has a route before and after still has one
+			dstOf := func(r string) string {
+				f := strings.Fields(r)
+				if len(f) < 3 {
+					return r
+				}
+				return f[1] + "/" + f[2]
+			}
+			cover := func(rs []string) map[string]bool {
+				m := map[string]bool{}
+				for _, r := range rs {
+					m[dstOf(r)] = true
+				}
+				return m
+			}
+			before, after := cover(c.dev.Routes), cover(c.spoc.Routes)
+			ex3 := &executor{d: c.dev.clone()}
+			for li, line := range strings.Split(strings.TrimSuffix(out, "\n"), "\n") {
+				if line == "" {
+					continue
+				}
+				ok := true
+				for _, cmd := range strings.Split(line, "\\N ") {
+					if err := ex3.exec1(cmd); err != nil {
+						ok = false
+					}
+				}
+				if !ok {
+					break
+				}
+				res.Count("route-coverage-states")
+				now := cover(ex3.d.Routes)
+				for d := range before {
+					if after[d] && !now[d] {
+						res.Fail(sig("destination_uncovered_during_script"), fmt.Sprintf("after line %d %q destination %s has no route", li, line, d), c)
+					}
+				}
+			}
+		}
 		if prop == "C10" {
 			for k, st := range states[:max(len(states)-1, 0)] {
 				res.Count("resume-cuts")
 				cmds2, _, v2 := correspond("F1 resume", c, st, c.spoc, st.print(true), c.Spoc)
+				if firstK2 == "1" {
+					// is class K2 closed under executing a prefix of its own script?  (measured; see resume_closure_counterexample)
+					res.Count("resume-cut-of-a-K2-run:k2=" + lastK2)
+					if lastK2 != "1" && os.Getenv("F1_SHOW_CUT") != "" {
+						fmt.Fprintf(os.Stderr, "CUT k=%d why=%s\n--dev\n%s--spoc\n%s--state\n%s\n", k+1, lastK2, c.Dev, c.Spoc, st.print(true))
+					}
+				}
 				if v2 == "panic" {
 					continue
 				}
